@@ -125,13 +125,18 @@ class LostAnchor(Exception):
 HARNESS_RE = re.compile(r"Checking harness (\S+?)\.\.\.")
 
 
+def harness_path(o):
+    # src/lib.rs is the crate root: its child module has no module prefix
+    return ("verif_kani::%s" % o["harness"]) if o["module"] == "lib" else "%s::verif_kani::%s" % (o["module"], o["harness"])
+
+
 def run_kani(ov, obligations, jobs, timeout_s, extra_args=()):
     """Run all harnesses in one cargo-kani invocation. Returns {harness: result dict} and raw output."""
     names = [o["harness"] for o in obligations]
     cmd = ["cargo", "kani", "-Z", "function-contracts", "-Z", "stubbing", "-Z", "unstable-options",
            "--output-format", "terse", "--harness-timeout", "%ds" % timeout_s, "-j", str(jobs), "--exact"]
     for o in obligations:
-        cmd += ["--harness", "%s::verif_kani::%s" % (o["module"], o["harness"])]
+        cmd += ["--harness", harness_path(o)]
     cmd += list(extra_args)
     t0 = time.time()
     p = subprocess.run(cmd, cwd=ov, env=ENV, stdout=subprocess.PIPE, stderr=subprocess.STDOUT, text=True,
@@ -244,7 +249,7 @@ def classify_kani(r):
 def kani_playback_print(ov, o, timeout_s):
     cmd = ["cargo", "kani", "-Z", "function-contracts", "-Z", "stubbing", "-Z", "unstable-options", "-Z", "concrete-playback",
            "--concrete-playback=print", "--output-format", "terse", "--harness-timeout", "%ds" % timeout_s, "--exact",
-           "--harness", "%s::verif_kani::%s" % (o["module"], o["harness"])]
+           "--harness", harness_path(o)]
     try:
         p = subprocess.run(cmd, cwd=ov, env=ENV, stdout=subprocess.PIPE, stderr=subprocess.STDOUT, text=True, timeout=timeout_s + 600)
     except subprocess.TimeoutExpired:
